@@ -232,7 +232,59 @@ def _faces_through(fixed, n, first_nonneg, upper):
     return a
 
 
-def make_mesh(src, grid, uniform=False, facescale=None):
+class AxisMappedSource:
+    """view of a source for a lower-dimensional / axis-permuted sibling grid: axis a of the sibling is axis
+    axmap[a] of the underlying source (sizes and face-array names are translated; everything else is shared)"""
+
+    def __init__(self, src, axmap):
+        self._src = src
+        self.axmap = list(axmap)
+        self.symbolic = src.symbolic
+
+    def size(self, a):
+        return self._src.size(self.axmap[a])
+
+    def _name(self, name):
+        if len(name) == 2 and name[0] == 'f' and name[1] in AX and AX.index(name[1]) < len(self.axmap):
+            return 'f' + AX[self.axmap[AX.index(name[1])]]
+        return name
+
+    def arr(self, name, shape, kind='real'):
+        return self._src.arr(self._name(name), shape, kind)
+
+    def scalar(self, name):
+        return self._src.scalar(name)
+
+    @property
+    def np(self):
+        return self._src.np
+
+    @property
+    def values(self):
+        return _NameMappedDict(self._src.values, self._name)
+
+    def __getattr__(self, k):
+        return getattr(self._src, k)
+
+
+class _NameMappedDict:
+    def __init__(self, d, fn):
+        self.d, self.fn = d, fn
+
+    def __contains__(self, k):
+        return self.fn(k) in self.d
+
+    def __getitem__(self, k):
+        return self.d[self.fn(k)]
+
+    def __setitem__(self, k, v):
+        self.d[self.fn(k)] = v
+
+    def get(self, k, default=None):
+        return self.d.get(self.fn(k), default)
+
+
+def make_mesh(src, grid, uniform=False, facescale=None, facemap=None):
     """mesh of class `grid` satisfying well_formed: symbolic from the spec (contract), concrete via the real
     constructor from the same face arrays.  facescale: per-axis factor applied to the face positions (a second mesh
     in other units over the same face arrays)"""
@@ -255,6 +307,8 @@ def make_mesh(src, grid, uniform=False, facescale=None):
             fa = src.values[name].astype(float)
             if facescale is not None:
                 fa = fa * float(facescale[a])
+            if facemap is not None and facemap[a] is not None:
+                fa = facemap[a](fa)
             faces.append(fa)
         return cls(*faces)
     N = [src.size(a) for a in range(nd)]
@@ -267,6 +321,8 @@ def make_mesh(src, grid, uniform=False, facescale=None):
             f = src.arr('f' + AX[a], (n + 1,))
             if facescale is not None:
                 f = f * facescale[a]
+            if facemap is not None and facemap[a] is not None:
+                f = facemap[a](f)
             fsnap = f.snap()
             c = SymNDArray.from_fn((n,), (lambda idx, fsnap=fsnap: (fsnap((idx[0],)) + fsnap((I(idx[0]) + 1,))) * R.const(Fraction(1, 2))),
                                    'real', origin='mesh')
